@@ -531,15 +531,20 @@ def _probe_compile(repo, body, std=False):
 
 
 def _probe_key(repo):
-    """content hash of the anchored headers' directories + this file's probe lists"""
+    """content hash of the whole include tree (the engine's, computed once per run) + this file's probe lists"""
     h = hashlib.sha256()
-    inc = os.path.join(repo, "include", "etl")
-    for sub in ("_optional", "_variant", "_expected", "_utility", "_type_traits", "_meta", "_functional", "_tuple"):
-        d = os.path.join(inc, sub)
-        for fn in sorted(os.listdir(d)) if os.path.isdir(d) else []:
-            with open(os.path.join(d, fn), "rb") as f:
-                h.update(fn.encode())
-                h.update(f.read())
+    try:
+        from vlib import engine
+        h.update(engine.include_hash().encode() if str(engine.REPO) == str(repo) else b"other")
+        if str(engine.REPO) != str(repo):
+            raise RuntimeError
+    except Exception:  # stand-alone use: hash the tree here
+        inc = os.path.join(repo, "include")
+        for root, _, files in sorted(os.walk(inc)):
+            for fn in sorted(files):
+                with open(os.path.join(root, fn), "rb") as f:
+                    h.update(os.path.join(root, fn).encode())
+                    h.update(f.read())
     h.update(json.dumps([PROBE_HDR, PROBES_MUST, PROBES_KNOWN]).encode())
     return h.hexdigest()[:16]
 
